@@ -78,9 +78,11 @@ _exports = {}
 
 
 def export(cfg):
-    if cfg.name in _exports:
-        return _exports[cfg.name]
-    out = os.path.join(scratch(), "sa-%s-%d" % (cfg.name, core._gen))
+    key = (cfg.name, tuple(cfg.extra_files), tuple(cfg.flags), None if cfg.units is None else tuple(u.path for u in cfg.units),
+           tuple(sorted(cfg.overlay.items())), bool(cfg.all_headers), bool(getattr(cfg, "cxx", False)))
+    if key in _exports:
+        return _exports[key]
+    out = os.path.join(scratch(), "sa-%s-%d-%d" % (cfg.name, core._gen, len(_exports)))
     os.makedirs(out, exist_ok=True)
     us = cfg.units if cfg.units is not None else compdb.c_units()
     files = [u.path for u in us] + cfg.extra_files
@@ -115,7 +117,7 @@ def export(cfg):
     if bad:
         raise AnalysisBroken("mpir-sa produced no export for %d units in config %s: %s; %s"
                              % (len(bad), cfg.name, bad[:3], [r[1] for r in res if r[0]][:1]))
-    _exports[cfg.name] = ex
+    _exports[key] = ex
     return ex
 
 
